@@ -72,25 +72,43 @@ theorem C08_handshake {κ : Type} (members : κ → List Nat) (nodes : List Nat)
     · simp only [hp, and_false, if_false, Bool.false_eq_true]
       rw [sum_map_zero]; simp
 
+/-- Handshake for `DirectedHypergraph` (hyperedges with disjoint duplicate-free sides over nodes of the hypergraph):
+source and target incidences together sum to the total size `|sources| + |targets|` of the filtered hyperedges. -/
+theorem C08_handshake_directed (nodes : List Nat) (keys : List (List Nat × List Nat)) (hn : nodes.Nodup)
+    (hm : ∀ k ∈ keys, (k.1 ++ k.2).Nodup ∧ ∀ x ∈ k.1 ++ k.2, x ∈ nodes) (f : Filt) :
+    (nodes.map (fun n => dirDeg keys n f)).sum
+      = ((keys.filter (fun k => passes f (k.1.length + k.2.length))).map (fun k => k.1.length + k.2.length)).sum := by
+  have hdis : ∀ k ∈ keys, ∀ x ∈ k.1, x ∉ k.2 := fun k hk x hx1 hx2 =>
+    (List.nodup_append.mp (hm k hk).1).2.2 x hx1 x hx2 rfl
+  have h := C08_handshake dirMembers nodes keys hn hm f
+  simp only [dirMembers, List.length_append] at h
+  rw [← h]
+  congr 1
+  apply List.map_congr_left
+  intro n _
+  exact C08_degree_directed keys hdis n f
+
 /-- `degree_sequence` lists every node once, in `get_nodes()` order, with its degree; `degree_distribution` is the
-histogram of those numbers: degree `d` is a key iff some node has it, its value is the number of such nodes, and
-no key repeats. -/
+histogram of those numbers: degree `d` is a key iff some node has it, its value is the number of such nodes, no key
+repeats, and the values add up to the number of nodes. -/
 theorem C08_seq_dist {κ : Type} (members : κ → List Nat) (nodes : List Nat) (keys : List κ) (f : Filt) :
     degreeSeqG members nodes keys f = nodes.map (fun n => (n, degG members keys n f)) ∧
     (∀ d, lookup d (degreeDistG members nodes keys f)
         = (let c := (nodes.map (fun n => degG members keys n f)).count d; if c = 0 then none else some c)) ∧
-    ((degreeDistG members nodes keys f).map (·.1)).Nodup := by
+    ((degreeDistG members nodes keys f).map (·.1)).Nodup ∧
+    ((degreeDistG members nodes keys f).map (·.2)).sum = nodes.length := by
   have hseq : ∀ g, degreeSeqG members nodes keys g = nodes.map (fun n => (n, degG members keys n g)) := by
     intro g; simp only [degreeSeqG, degG_toOrder]
   have hfold : degreeDistG members nodes keys f
       = (nodes.map (fun n => degG members keys n f)).foldl (fun a x => bump x a) [] := by
     simp only [degreeDistG, hseq, degG_toOrder, List.foldl_map]
-  refine ⟨hseq f, ?_, ?_⟩
+  refine ⟨hseq f, ?_, ?_, ?_⟩
   · intro d
     rw [hfold, lookup_hist]
     simp [lookup]
   · rw [hfold]
     exact nodup_hist _ [] (by simp)
+  · rw [hfold, sum_hist]; simp
 
 /-- the same for the directed sequence / histogram -/
 theorem C08_seq_dist_directed (nodes : List Nat) (keys : List (List Nat × List Nat)) (f : Filt) :
@@ -148,12 +166,19 @@ theorem C08_same_component (nodes : List Nat) (es : List Edge) (f : Filt) (u v :
     obtain ⟨c, hc, huc⟩ := (components_spec nodes es f).2.2 u hu
     exact ⟨c, hc, huc, (components_class nodes es f c hc u huc v).mpr hr⟩
 
+/-- `num_connected_components` is the number of reachability classes: every system of representatives `R` (nodes,
+pairwise not reachable from each other, every node reachable from one of them) has exactly that many members. -/
+theorem C08_count (nodes : List Nat) (es : List Edge) (f : Filt) (R : List Nat) (hR : ∀ r ∈ R, r ∈ nodes)
+    (hpair : R.Pairwise (fun a b => ¬ Reach es f a b)) (hcov : ∀ n ∈ nodes, ∃ r ∈ R, Reach es f r n) :
+    numComponents nodes es f = R.length :=
+  components_count nodes es f R hR hpair hcov
+
 /-- A node is isolated (`is_isolated`, `isolated_nodes`) iff no filtered hyperedge of size ≥ 2 contains it, iff its
 reachability class is `{n}`, iff its connected component is the singleton `[n]`.
-(`hnd`: hyperedges are duplicate-free tuples - needed for "size ≥ 2" only.) -/
-theorem C08_isolated (nodes : List Nat) (es : List Edge) (f : Filt) (n : Nat) (hn : n ∈ nodes)
-    (hnd : ∀ e ∈ es, e.Nodup) :
-    (isIsolated? nodes es f n = some true ↔ ∀ e ∈ es, passes f e.length = true → n ∈ e → e.length < 2) ∧
+(Hyperedges are duplicate-free tuples: hypothesis of the "size ≥ 2" form only.) -/
+theorem C08_isolated (nodes : List Nat) (es : List Edge) (f : Filt) (n : Nat) (hn : n ∈ nodes) :
+    ((∀ e ∈ es, e.Nodup) →
+      (isIsolated? nodes es f n = some true ↔ ∀ e ∈ es, passes f e.length = true → n ∈ e → e.length < 2)) ∧
     (isIsolated? nodes es f n = some true ↔ ∀ v, Reach es f n v ↔ v = n) ∧
     (isIsolated? nodes es f n = some true ↔ [n] ∈ components nodes es f) ∧
     (n ∈ isolatedNodes nodes es f ↔ isIsolated? nodes es f n = some true) := by
@@ -166,7 +191,8 @@ theorem C08_isolated (nodes : List Nat) (es : List Edge) (f : Filt) (n : Nat) (h
     · intro h v ha
       exact (h v).mp (Reach.single ha)
   refine ⟨?_, hiso.trans hreach, ?_, ?_⟩
-  · rw [hiso]
+  · intro hnd
+    rw [hiso]
     constructor
     · intro h e he hp hne
       apply Decidable.byContradiction
@@ -316,6 +342,25 @@ example : Reach exEdges .none 0 4 ∧ ¬ Reach exEdges (.size 2) 0 4 := by
   rw [hb] at hc
   cases hc
   exact absurd ((hmem 4).mpr h) (by decide)
+set_option maxRecDepth 4000 in
+example : ∃ R : List Nat, (∀ r ∈ R, r ∈ exNodes) ∧ R.Pairwise (fun a b => ¬ Reach exEdges .none a b) ∧
+    (∀ n ∈ exNodes, ∃ r ∈ R, Reach exEdges .none r n) ∧ R.length = 3 := by
+  have b0 : bfsH exEdges .none 0 = [4, 3, 2, 1, 0] := by c08_eval
+  have b5 : bfsH exEdges .none 5 = [5] := by c08_eval
+  have r0 : ∀ v, Reach exEdges .none 0 v ↔ v ∈ [4, 3, 2, 1, 0] := fun v => by rw [← b0, mem_bfsH]
+  have r5 : ∀ v, Reach exEdges .none 5 v ↔ v ∈ [5] := fun v => by rw [← b5, mem_bfsH]
+  refine ⟨[0, 5, 6], by decide, ?_, ?_, rfl⟩
+  · simp [r0, r5]
+  · intro n hn
+    simp only [exNodes, List.mem_cons, List.not_mem_nil, or_false] at hn
+    rcases hn with rfl | rfl | rfl | rfl | rfl | rfl | rfl
+    · exact ⟨0, by decide, (r0 _).mpr (by decide)⟩
+    · exact ⟨0, by decide, (r0 _).mpr (by decide)⟩
+    · exact ⟨0, by decide, (r0 _).mpr (by decide)⟩
+    · exact ⟨0, by decide, (r0 _).mpr (by decide)⟩
+    · exact ⟨0, by decide, (r0 _).mpr (by decide)⟩
+    · exact ⟨5, by decide, Reach.refl 5⟩
+    · exact ⟨6, by decide, Reach.refl 6⟩
 set_option maxRecDepth 4000 in
 example : isConnected exNodes exEdges .none = false ∧ isConnected [0, 1, 2] [[0, 1], [1, 2]] (.order 1) = true
     ∧ numComponents exNodes exEdges (.size 2) = 5 ∧ largestComponent exNodes exEdges (.size 3) = some [3, 2, 1]
